@@ -31,6 +31,8 @@ def copy_demo(src, wt):
             rel = os.path.relpath(os.path.join(dp, fn), src)
             if "__" in fn and os.path.dirname(rel) == "":
                 rel = fn.replace("__", "/")  # path encoded in the file name
+            elif os.path.dirname(rel) == "":
+                continue  # no destination known: the demo command copies it itself
             dst = os.path.join(wt, rel)
             os.makedirs(os.path.dirname(dst), exist_ok=True)
             shutil.copy(os.path.join(dp, fn), dst)
@@ -62,14 +64,15 @@ def main():
             copied = copy_demo(os.path.join(d, "demo"), wt)
             rc0, out0 = sh(demo_cmd, cwd=wt, timeout=1200)
             confirm["demo_passes_without_change"] = rc0 == 0
+            sh("git clean -fdq", cwd=wt)
+            copied = copy_demo(os.path.join(d, "demo"), wt)
             rc, out = sh(["git", "apply", patch], cwd=wt)
             confirm["patch_applies"] = rc == 0
             rcb, outb = sh("go build ./...", cwd=wt)
             confirm["builds"] = rcb == 0
             rc1, out1 = sh(demo_cmd, cwd=wt, timeout=1200)
             confirm["demo_fails_with_change"] = rc1 != 0
-            for f in copied:
-                os.remove(f)
+            sh("git clean -fdq", cwd=wt)
             rct, outt = sh("go test -vet=off -count=1 ./...", cwd=wt, timeout=1800)
             confirm["existing_suite_passes"] = rct == 0
             ran += ["git worktree add %s HEAD" % wt, demo_cmd + " (before: rc=%d)" % rc0, "git apply patch.diff", "go build ./...",
